@@ -223,7 +223,8 @@ def cmd_check(prop, tier, base_seed, workers, no_selftest=False, limit=None):
             'length_window_points_total': checks.grid_total(),
             'length_window': ('fragment size in %s x framing {tcp, ws} x data length 0..2F+24 x metadata length {none, 0..2F+24}; each point '
                               'runs request-response, fire-and-forget, request-stream and two request-channels with that payload shape; '
-                              'quick strides through the window, thorough visits every point once' % list(checks.P.FRAG_GRID_F)),
+                              'quick strides through the window, thorough visits every point of it up to a budget of %d points (else every k-th point)'
+                              % (list(checks.P.FRAG_GRID_F), checks.GRID_BUDGET)),
         })
     if agg['by_profile'].get('peer-script-grid'):
         from . import profiles_peer as _PP
